@@ -230,7 +230,7 @@ def run_phases(prop, name, phases, plan0=None, tls=None, keep_ca=False):
             cmark = len(ca.log())
             t0 = time.monotonic()
             dm = C.Daemon(d, d + '/acmed.toml', binary=ph.get('binary', 'acmed_v'), env=ph.get('env'), workers=ph.get('workers'),
-                          extra_args=ph.get('extra_args', ()))
+                          extra_args=ph.get('extra_args', ()), umask=ph.get('umask'))
 
             def cond():
                 return (not dm.alive()) or ph['stop'](C.read_jsonl(d + '/hooks.log')[hmark:], ca.log()[cmark:])
